@@ -408,6 +408,34 @@ def boundary_histories():
 # ------------------------------------------------------------------------------------------
 # correspondence
 
+def in_domain(line):
+    """inside the property's quantifier: frame offsets 0..24 for the operations of the TDMA scheduler, frame numbers of the
+    hyperframe for sched_gsmtime / sched_gsmtime_execute, a ring position below 25.  Other requests (32-bit frame numbers,
+    offsets beyond the scheduler depth) are still run and compared; a difference there is evidence, not a broken tie."""
+    t = line.split()
+    try:
+        if not 0 <= int(t[1]) < 25:
+            return False
+        cur = []
+        ops = []
+        for x in t[2:]:
+            if x == ";":
+                ops.append(cur); cur = []
+            else:
+                cur.append(x)
+        ops.append(cur)
+        for o in ops:
+            if not o:
+                continue
+            if o[0] in ("sched", "set") and not 0 <= int(o[1]) < 25:
+                return False
+            if o[0] in ("gs", "gx") and not 0 <= int(o[1]) < 2715648:
+                return False
+    except (ValueError, IndexError):
+        return False
+    return True
+
+
 def correspond(run, corr):
     exe = build_harness(run)
     src = os.path.join(vf.REPO, "src/target/firmware/layer1/sched_gsmtime.c")
@@ -438,7 +466,7 @@ def correspond(run, corr):
     impl = run_hist(exe, lines)
     model = vf.run_driver(lines)
     before = len(corr.disagreements)
-    corr.compare(lines, impl, model)
+    corr.compare(lines, impl, model, in_domain=in_domain)
     if len(corr.disagreements) > before:
         d = corr.disagreements[before]
         small = shrink_disagreement(exe, d["request"])
